@@ -50,8 +50,8 @@ RULE = (
     'Exhaustive: every polynomial of degree <= 3 incl. 0 (unary ops, shifts 0..3, evaluation at -2..p+1, '
     'indexing, int/list/tuple/str constructors, powmod with n in -3..6 and 13 moduli incl. None/0/constants/'
     'reducible/irreducible); every ordered PAIR for p = 2 (degree <= 3; p = 3: thorough tier); p in {5,7}: thorough tier every pair of '
-    'degree <= 2 (p = 5: <= 3), quick tier every pair of degree <= 1 plus seeded samples of 2500/3000 pairs of '
-    'degree <= 2 and 1500 pairs involving degree 3 (quick p = 3: all pairs of degree <= 2 + 2500 sampled pairs involving '
+    'degree <= 2 (p = 5: <= 3), quick tier every pair of degree <= 1 plus seeded samples of 1500 pairs of '
+    'degree <= 2 and 1000 pairs involving degree 3 (quick p = 3: all pairs of degree <= 2 + 1500 sampled pairs involving '
     'degree 3; quick p = 5/7: unary ops on degree <= 2 / the first 147 polynomials, powmod on degree <= 2 / <= 1 + 200 '
     'sampled); ring laws on all triples of '
     'degree <= 3 (p=2) / <= 2 (p=3; quick: degree <= 1 + 3000 sampled) and random triples otherwise. Random: degrees -1..40 with shapes generic/'
@@ -69,7 +69,8 @@ EXPLANATION = (
     'deg u < deg b, raises iff no inverse; powmod equals n-fold multiplication reduced mod b after each step '
     '(negative n through the inverse); < is degree-then-top-down lexicographic; int/list/str round trips; '
     'evaluation equals sum c_i x^i mod p; ring laws on triples evaluated with the real operators only; the SageMath-style '
-    'helpers reverse/truncate/deriv (no Lean model: oracle only) equal their definitions in both representations.')
+    'helpers reverse/truncate (Lean model: correspondence, no theorem) and deriv (oracle only) equal their definitions '
+    'in both representations.')
 ASSUMPTIONS = [
     'the correspondence is a finite sample (exhaustive on the listed small domains, seeded random beyond)',
     'powmod with the ZERO polynomial as modulus is compared with the model but not judged by the oracle '
@@ -210,6 +211,8 @@ def fmt_arg(kind, a, binfmt):
         return str(a)
     if kind == 'M' and a is None:
         return 'N'
+    if kind == 'O':
+        return 'N' if a is None else str(a)
     if kind == 'L':
         return fmtL(a)
     return fmtB(a) if binfmt else fmtL(a)
@@ -609,12 +612,12 @@ def oracle_deriv(p, a, m):
 defop('reverse', 'PO', 'P', chk_reverse, [
     V('a.reverse(d)', lambda D, a, d: a.reverse(d)),
     V('_reverse', lambda D, a, d: D.w(D.cls._reverse(a.value, d=d))),
-])
+], drv='reverse')
 defop('truncate', 'PN', 'P', lambda D, args, obs: _is(obs, O.norm(D.p, args[0][:args[1]])), [
     V('a.truncate(n)', lambda D, a, n: a.truncate(n)),
     V('_truncate', lambda D, a, n: D.w(D.cls._truncate(a.value, n))),
     V('a%x^n', lambda D, a, n: a % (D.cls(1) << n)),
-])
+], drv='truncate')
 defop('deriv', 'PN', 'P', lambda D, args, obs: _is(obs, oracle_deriv(D.p, *args)), [
     V('a.deriv(m)', lambda D, a, m: a.deriv(m)),
     V('_deriv', lambda D, a, m: D.w(D.cls._deriv(a.value, m=m))),
@@ -1228,7 +1231,7 @@ def run_jobs(ctx, jobs, modname, max_violations=3):
     for k, js in enumerate(jobs):
         js.update(mod=modname, pid=ctx.property_id, tier=ctx.tier, seed0=ctx.seed)
         js.setdefault('what', f"{js['kind']}[{js.get('dom', '')}]#{k}")
-    nproc = max(1, min(int(os.environ.get('VERIF_PROCS', '12')), (os.cpu_count() or 2), len(jobs)))
+    nproc = max(1, min(int(os.environ.get('VERIF_PROCS', '16')), (os.cpu_count() or 2), len(jobs)))
     batches = [[] for _ in range(nproc)]
     load = [0.0] * nproc
     for k in sorted(range(len(jobs)), key=lambda k: (-jobs[k].get('weight', 1), k)):   # longest first, least loaded
@@ -1327,8 +1330,8 @@ def build_jobs(ctx, nodriver=False):
         for lo, hi in _chunks(0, 81, 6):
             add_pairs('3', ('grid', lo, hi, 81), (hi - lo) * 81, None)
     else:
-        s3 = _sample_pairs(ctx.subrng('pairs3', 3), 3, 2500)         # pairs involving degree 3
-        for lo, hi in _chunks(0, 2500, 3):
+        s3 = _sample_pairs(ctx.subrng('pairs3', 3), 3, 1500)         # pairs involving degree 3
+        for lo, hi in _chunks(0, 1500, 3):
             add_pairs('3', ('list', s3[lo:hi]), hi - lo, 1)
     if not T:
         add_pairs('3', ('grid', 0, 9, 9), 81, None)          # all entry points on degree <= 1
@@ -1359,11 +1362,11 @@ def build_jobs(ctx, nodriver=False):
             add_pairs(str(p), ('grid', 0, n1, n1), n1 * n1, 1, None)
             r2 = ctx.subrng('pairs2', p)
             n2 = p ** 3
-            cnt2 = 2500 if p == 5 else 3000
+            cnt2 = 1500
             sample2 = [(r2.randrange(n2), r2.randrange(n2)) for _ in range(cnt2)]
             for lo, hi in _chunks(0, cnt2, 3):
                 add_pairs(str(p), ('list', sample2[lo:hi]), hi - lo, 1, None)
-        cnt = ctx.scale(1500, 250000 if p == 7 else 60000)
+        cnt = ctx.scale(1000, 250000 if p == 7 else 60000)
         sample = _sample_pairs(ctx.subrng('pairs3', p), p, cnt)
         for lo, hi in _chunks(0, cnt, max(1, cnt // 6000)):
             add_pairs(str(p), ('list', sample[lo:hi]), hi - lo, 1)
@@ -1390,9 +1393,9 @@ def build_jobs(ctx, nodriver=False):
         for lo, hi in _chunks(0, cnt, max(1, cnt // 3000)):
             add_laws(str(p), ('list', tr[lo:hi]), hi - lo)
     # ---- (ii) random larger primes --------------------------------------------------------------
-    for p, cnt, parts, light in ((11, ctx.scale(300, 5000), ctx.scale(2, 8), False),
-                                 (101, ctx.scale(300, 5000), ctx.scale(2, 8), False),
-                                 (P61, ctx.scale(120, 2000), ctx.scale(8, 16), True)):
+    for p, cnt, parts, light in ((11, ctx.scale(200, 5000), ctx.scale(4, 8), False),
+                                 (101, ctx.scale(200, 5000), ctx.scale(4, 8), False),
+                                 (P61, ctx.scale(80, 2000), ctx.scale(8, 16), True)):
         for part in range(parts):
             c = -(-cnt // parts)
             add('random', str(p), c * (0.25 if light else 0.02), count=c, maxdeg=40, light=light,
